@@ -28,22 +28,24 @@ def run(repo: Repo, chk: Check):
     chk.saw("generate_code", fn.qual)
     cfg, rd = fn_ctx(fn)
     where = f"{g.path}:{fn.lineno} in {fn.qual}"
-    apps = [c for c in ast.walk(fn) if isinstance(c, ast.Call) and norm(c.func) in ("self.code.append", "self.code.extend")]
-    if not apps:
-        raise AnalysisError("CompilerPassGatherCode.run: append to self.code not found")
-    for c in apps:
-        ids = live_ids(cfg, c)
-        atoms = guard_atoms(cfg, ids[0]) if ids else []
-        txt = [(norm(t), p) for t, p in atoms]
-        called = any(p and isinstance(t, ast.BoolOp) and isinstance(t.op, ast.Or) and any(norm(v).endswith(".is_called") for v in t.values)
-                     and any(isinstance(v, ast.Compare) and any(isinstance(k, ast.Constant) and k.value == "" for k in v.comparators) for v in t.values)
-                     and len(t.values) == 2 for t, p in atoms) or any(p and norm(t).endswith(".is_called") for t, p in atoms)
-        noconst = any((not p) and norm(t).endswith(".is_constexpr") for t, p in atoms)
-        chk.judge("R13.a", "generate_code:run:region emitted only if main or called", called,
-                  f"function code is appended under the guards {txt}: expected 'fname == \"\" or func.is_called' (an uncalled library function must contribute no instructions)",
-                  {"guards": txt}, where)
-        chk.judge("R13.a", "generate_code:run:constexpr functions are skipped", noconst,
+    from .shared import gather_model, emission_table
+    _, ems = gather_model(repo)
+    if not ems:
+        raise AnalysisError("CompilerPassGatherCode.run: no statement that adds lines to self.code found")
+    for em in ems:
+        rows, free = emission_table(em)
+        txt = em.guard_text()
+        bad = [a for a, e in rows if e and not (a["M"] or a["C"])]
+        chk.judge("R13.a", "generate_code:run:region emitted only if main or called", not bad,
+                  f"function code reaches self.code under {txt}: that also holds for a function that is neither the main region nor called "
+                  f"(an uncalled library function must contribute no instructions)", {"guards": txt}, where)
+        badx = [a for a, e in rows if e and a["X"]]
+        chk.judge("R13.a", "generate_code:run:constexpr functions are skipped", not badx,
                   f"function code is appended without excluding constexpr functions (guards {txt})", None, where)
+        if not free and len(ems) == 1:
+            missing = [("main region" if a["M"] else "called function") for a, e in rows if not e and a["C"] and not a["X"]]
+            chk.judge("R13.a", "generate_code:run:the main region and every called function are emitted", not missing,
+                      f"under the guards {txt} the {sorted(set(missing))} is not emitted", None, where)
     ic = cp.func("FunctionData.is_called")
     chk.saw("compile_pass", ic.qual)
     rets = [r for r in ast.walk(ic) if isinstance(r, ast.Return) and r.value is not None]
